@@ -32,15 +32,15 @@ def check_case(ctx, cs, prop_site="insert_knot"):
     changed = exp != sh0
     ctx.count(hist_key(cs), nontrivial=True, sample={"sh0": {k: sh0[k] for k in ("deg", "kv", "size", "rat")}, "hist": hist,
                                                         "expected_kv": exp["kv"], "expected_size": exp["size"]})
-    for via in ("operations", "method", "tiny", "huge", "alt"):
-        site = ("%s." % KIND[len(sh0["deg"])].capitalize() if via == "method" else "operations.") + prop_site
+    for via in ("operations", "method", "tiny", "huge", "alt", "alt_method"):
+        site = ("%s." % KIND[len(sh0["deg"])].capitalize() if via in ("method", "alt_method") else "operations.") + prop_site
         conj = {"tiny": 2.0 ** -40, "huge": 2.0 ** 30}.get(via)
         if conj is not None:
             tg = [t for t in tg if not t.startswith("coordinates=")] + ["coordinates=" + via]
-        if via == "alt":
+        if via.startswith("alt"):
             tg = [t for t in tg if not t.startswith("coordinates=")] + ["tuples_and_ints"]
         try:
-            obj, infos = replay_history(sh0, hist, "operations" if via in ("tiny", "huge", "alt") else via, conj=conj, alt_repr=(via == "alt"))
+            obj, infos = replay_history(sh0, hist, "method" if via in ("method", "alt_method") else "operations", conj=conj, alt_repr=via.startswith("alt"))
         except Exception as e:
             ctx.violate(site, tg + ["raises"], small, {"exception": repr(e)[:300]})
             continue
